@@ -188,6 +188,125 @@ def claim_parts(mach, rv, st):
     return out[:3]
 
 
+INPUT = ('input',)
+VEC = ('vec',)
+RES = 'std::result::Result'
+
+
+def uri_restricted(spec_total, pts):
+    """the total data-URL specification restricted to valid URIs: product of the marked automaton with the byte-level DFA of RFC 3986 URI
+    (marker letters do not move the URI component)"""
+    du = lang.ref_dfa('3986', 'URI', False)
+    dm = spec_total.d
+    n = NFA()
+    ids = {}
+
+    def stt(k):
+        if k not in ids:
+            ids[k] = n.new()
+        return ids[k]
+    start = stt((dm.start, du.start))
+    work = [(dm.start, du.start)]
+    seen = set(work)
+    finals = []
+    while work:
+        q, p = work.pop()
+        a = stt((q, p))
+        if q in dm.finals and p in du.finals:
+            finals.append(a)
+        for c, t in dm.trans[q].items():
+            lo, hi = dm.alpha.starts[c], dm.alpha.ends[c]
+            if lo >= 256:
+                k = (t, p)
+                n.add(a, lo, hi, stt(k))
+                if k not in seen:
+                    seen.add(k)
+                    work.append(k)
+                continue
+            for c2, t2 in du.trans[p].items():
+                l2, h2 = du.alpha.starts[c2], min(du.alpha.ends[c2], 255)
+                x, y = max(lo, l2), min(hi, h2)
+                if x <= y:
+                    k = (t, t2)
+                    n.add(a, x, y, stt(k))
+                    if k not in seen:
+                        seen.add(k)
+                        work.append(k)
+    points = {256} | {256 + i for i in range(len(MARKERS) + 1)} | set(pts) | {128}
+    d = determinize(n, start, finals, 255 + len(MARKERS), False, points).minimize()
+    return Spec(d, MARKERS)
+
+
+def ctor_summary(valid):
+    def summ(mach, st, locs, name, args):
+        a0 = args[0] if args else None
+        if name in ('std::convert::AsRef::as_ref', 'std::borrow::Borrow::borrow'):
+            if a0 == INPUT:
+                return [(T, st)]
+            if isinstance(a0, tuple) and a0 and a0[0] == 'str':
+                return [(a0, st)]
+        if name == 'std::convert::Into::into' and a0 == INPUT:
+            return [(VEC, st)]
+        if name == 'uri::Uri::new' and a0 == T:
+            return [((('adt', RES, 0, (T,)) if valid else ('adt', RES, 1, (('adt', 'uri::InvalidUri', 0, (T,)),))), st)]
+        if name == 'uri::UriBuf::new' and a0 == VEC:
+            return [((('adt', RES, 0, (('adt', 'uri::UriBuf', 0, (T,)),)) if valid else ('adt', RES, 1, (('adt', 'uri::InvalidUri', 0, (VEC,)),))), st)]
+        if name == 'uri::UriBuf::into_bytes' and a0 == ('adt', 'uri::UriBuf', 0, (T,)):
+            return [(VEC, st)]
+        return None
+    return summ
+
+
+def from_impl(e, fn):
+    if isinstance(e, tuple) and e and e[0] == 'adt' and e[1] == 'uri::InvalidUri':
+        return '<uri::scheme::data::InvalidDataUrl<T> as std::convert::From<uri::InvalidUri<T>>>::from'
+    return None
+
+
+def make_claim_ctor(owned, valid):
+    handed_back = VEC if owned else INPUT
+
+    def err_ok(pay):
+        return isinstance(pay, tuple) and pay and pay[0] == 'adt' and pay[1].endswith('InvalidDataUrl') and pay[3] and pay[3][0] in (handed_back, T if not owned else VEC)
+
+    def claim(mach, rv, st):
+        out = []
+        if rv is None or rv[0] != 'adt' or rv[1] != RES:
+            return [('claim', f'returns {str(rv)[:60]}')]
+        if not valid:
+            if rv[2] == 0:
+                return [('accept', 'returns Ok for an input that is not a valid URI')]
+            return [] if err_ok(rv[3][0]) else [('value', 'the error does not hand the input back')]
+        for q, pl, passed, fut in _each_completion(mach, st):
+            allm = passed | fut
+            if rv[2] == 1:
+                if 'OK' in allm:
+                    out.append(('accept', 'returns Err for a valid URI of the documented shape'))
+                elif not err_ok(rv[3][0]):
+                    out.append(('value', 'the error does not hand the input back'))
+                continue
+            if 'OK' not in allm:
+                out.append(('accept', 'returns Ok for a URI that does not have the documented shape'))
+                continue
+            pay = rv[3][0]
+            if not owned:
+                if pay != T:
+                    out.append(('value', 'the borrowed data URL is not the validated text itself'))
+                continue
+            if not (pay[0] == 'adt' and pay[1].endswith('DataUrlBuf') and len(pay[3]) == 2 and pay[3][0] == ('adt', 'uri::UriBuf', 0, (T,))):
+                out.append(('value', 'the owned data URL does not store exactly the validated text'))
+                continue
+            d = pay[3][1]
+            if d[0] != 'adt' or len(d[3]) != 3:
+                out.append(('claim', 'unexpected delimiters structure'))
+                continue
+            mte, b64, ds = d[3]
+            if not _pos(mach, st, mte, pl, 'M') or not _pos(mach, st, ds, pl, 'D') or b64[0] != 'n' or bool(b64[2]) != ('B' in allm):
+                out.append(('offset', 'the stored delimiters are not the specification positions of this text'))
+        return out[:3]
+    return claim
+
+
 OBLIGATIONS = [
     # (key, function, total hypothesis?, entry args, claim, what)
     ('parse', PRE + 'DataUrlDelimiters::parse', True, [T], claim_parse, 'accepts exactly the documented shape and reports its delimiters'),
@@ -204,15 +323,30 @@ def run(P):
     pts = scanrun.alphabet_points(bodies, prefix=(PRE,))
     specs = {}
     res = []
-    for key, fn, total, args, claim, what in OBLIGATIONS:
+    jobs = list(OBLIGATIONS)
+    for owned, fn in ((False, PRE + 'DataUrl::new'), (True, PRE + 'DataUrlBuf::new')):
+        for valid in (True, False):
+            jobs.append((f'{"owned" if owned else "borrowed"}-ctor-{"uri" if valid else "not-uri"}', fn, ('ctor', valid), [INPUT], make_claim_ctor(owned, valid),
+                         f'{"DataUrlBuf" if owned else "DataUrl"}::new on an input that is {"a valid URI: Ok exactly for the documented shape, storing the text" + (" and its delimiters" if owned else "") if valid else "not a valid URI: Err handing the input back"}'))
+    for key, fn, total, args, claim, what in jobs:
         r = {'key': key, 'fn': fn, 'what': what, 'findings': [], 'stats': {}}
         res.append(r)
         if fn not in bodies:
             r['findings'].append(('anchor', f'{fn} not found', None, None))
             continue
-        if total not in specs:
+        extra = None
+        if isinstance(total, tuple):
+            valid = total[1]
+            if True not in specs:
+                specs[True] = build_spec(True, pts)
+            if total not in specs:
+                specs[total] = uri_restricted(specs[True], pts) if valid else specs[True]
+            extra = ctor_summary(valid)
+        elif total not in specs:
             specs[total] = build_spec(total, pts)
-        m = strscan.Machine(bodies, specs[total], fn, args, lambda n: n.startswith(PRE), claim)
+        bodies2 = bodies if extra is None else dict(bodies, **{n: b for n, b in P.bodies.items() if 'InvalidDataUrl' in n and '::from' in n})
+        m = strscan.Machine(bodies2, specs[total], fn, args, lambda n: n.startswith(PRE), claim, extra_summary=extra)
+        m.from_impl = from_impl if extra is not None else None
         try:
             raw = m.run()
         except Exception as e:      # fail closed
